@@ -313,10 +313,14 @@ package sqlx
 //@ func SpecGenType(elements any) (s string)
 //@   trusted
 //@   pure
+//@ spec func SpecGenExpr(elements any) string { panic("uninterpreted") }
+//@ func SpecGenExpr(elements any) (s string)
+//@   trusted
+//@   pure
 //@ func Has(elements, target any) (ok bool)
 //@   trusted
-//@   modifies struct(schema.GeneratedExpr)
-//@   ensures GvcIs[*schema.GeneratedExpr](target) ==> ok == SpecHasGen(elements) && (ok ==> target.(*schema.GeneratedExpr).Type == SpecGenType(elements))
+//@   modifies target.(*schema.GeneratedExpr).Expr, target.(*schema.GeneratedExpr).Type
+//@   ensures GvcIs[*schema.GeneratedExpr](target) ==> ok == SpecHasGen(elements) && (ok ==> target.(*schema.GeneratedExpr).Type == SpecGenType(elements) && target.(*schema.GeneratedExpr).Expr == SpecGenExpr(elements))
 
 // ---------------------------------------------------------------------------------------
 // C04 (narrow): dependsOn reports every foreign-key ordering constraint between two top-level
